@@ -6,10 +6,19 @@ from __future__ import annotations
 from collections import defaultdict, deque
 
 
+def _canon(nodes):
+    """a key per node that depends on the STATE only (TLC's node ids and the order of its dump vary from run to run)"""
+    import json
+    return {u: json.dumps(st, sort_keys=True, default=str) for u, st in nodes.items()}
+
+
 def edge_cover(nodes, edges, inits, max_len=None):
+    canon = _canon(nodes)
+    order = sorted(range(len(edges)), key=lambda k: (canon.get(edges[k][0], str(edges[k][0])), str(edges[k][1]), canon.get(edges[k][2], str(edges[k][2]))))
+    inits = sorted(inits, key=lambda i: canon.get(i, str(i)))
     out = defaultdict(list)
-    for k, (u, lab, v) in enumerate(edges):
-        out[u].append(k)
+    for k in order:
+        out[edges[k][0]].append(k)
     # BFS tree for shortest path to each node
     parent = {}
     dq = deque()
@@ -35,7 +44,7 @@ def edge_cover(nodes, edges, inits, max_len=None):
 
     covered = [False] * len(edges)
     paths = []
-    for k0 in range(len(edges)):
+    for k0 in order:
         if covered[k0] or edges[k0][0] not in parent:
             continue
         p = path_to(edges[k0][0]) + [k0]
